@@ -200,6 +200,40 @@ def run(nw, limit=None):
     report()
 
 
+def rerun(nw):
+    """the mutants left UNDETECTED by an earlier run, against the checks as they are now (fresh private copies of /verif)"""
+    muts = {m["id"]: m for m in json.load(open(os.path.join(OUT, "mutants.json")))}
+    rs = [json.loads(l) for l in open(os.path.join(OUT, "results.jsonl"))]
+    todo = [muts[r["id"]] for r in rs if r["status"] == "UNDETECTED" and r["id"] in muts]
+    resf = os.path.join(OUT, "rerun.jsonl")
+    if os.path.exists(resf):
+        os.remove(resf)
+    print(len(todo), "undetected mutants to re-run")
+
+    def w(a):
+        i, part = a
+        wt, vb = setup_worker(i)
+        for m in part:
+            path = os.path.join(wt, m["file"])
+            src = open(path).read().split("\n")
+            src[m["line"] - 1] = m["new"]
+            open(path, "w").write("\n".join(src))
+            base = os.path.basename(m["file"])
+            first = CHECKS_FOR.get(base, ["C09", "C12", "C11", "C14", "C16"] if "macros" in m["file"] else ALL)
+            c, nf, line = run_checks(vb, wt, first)
+            if c is None:
+                c, nf, line = run_checks(vb, wt, [x for x in ALL if x not in first])
+            sh("git -C %s checkout -- ." % wt)
+            with open(resf, "a") as f:
+                f.write(json.dumps({"id": m["id"], "file": m["file"], "line": m["line"], "old": m["old"].strip(), "new": m["new"].strip(),
+                                    "status": "caught" if c else "UNDETECTED", "check": c, "with_failing_input": nf, "report": line}) + "\n")
+    with ThreadPoolExecutor(max_workers=nw) as ex:
+        list(ex.map(w, enumerate([todo[i::nw] for i in range(nw)])))
+    for l in open(resf):
+        r = json.loads(l)
+        print(r["status"], r["check"], "%s:%d" % (r["file"], r["line"]), r["new"][:80])
+
+
 def report():
     resf = os.path.join(OUT, "results.jsonl")
     rs = [json.loads(l) for l in open(resf)]
@@ -220,6 +254,8 @@ def report():
 if __name__ == "__main__":
     if sys.argv[1] == "gen":
         gen()
+    elif sys.argv[1] == "rerun":
+        rerun(int(sys.argv[2]))
     elif sys.argv[1] == "run":
         run(int(sys.argv[2]), int(sys.argv[3]) if len(sys.argv) > 3 else None)
     else:
